@@ -356,6 +356,71 @@ func init() {
 // gated methods and the polarity of the flag required at their effects.
 var c08Gated = []string{"List", "SignWithFlags", "Signers", "Add", "Remove", "RemoveAll", "AddHardCert", "Lock", "Unlock", "Close", "Sign"}
 
+// delegate: the exported method hands its whole work - after taking the mutex - to one unexported method of the same
+// receiver, passing its own parameters or constants, and returns that method's results unchanged. Two exported
+// methods may share the helper (Lock and Unlock merged into one function with a boolean parameter): the helper is
+// then analysed once per call, with the constant arguments of that call.
+func (m *shimModel) delegate(fn *ssa.Function) (*ssa.Function, *ssa.Call) {
+	w := m.w
+	var target *ssa.Call
+	for _, r := range liveReturns(fn) {
+		var call *ssa.Call
+		for i, res := range r.Results {
+			if lv := w.leaves(res, r, false); len(lv) == 1 {
+				res = lv[0].Val
+			}
+			var cv *ssa.Call
+			switch x := res.(type) {
+			case *ssa.Call:
+				if len(r.Results) == 1 {
+					cv = x
+				}
+			case *ssa.Extract:
+				if c2, isC := x.Tuple.(*ssa.Call); isC && x.Index == i {
+					cv = c2
+				}
+			}
+			if cv == nil || (call != nil && cv != call) {
+				return nil, nil
+			}
+			call = cv
+		}
+		if call == nil || (target != nil && call != target) {
+			return nil, nil
+		}
+		target = call
+	}
+	if target == nil {
+		return nil, nil
+	}
+	h := w.helperOf(target)
+	if h == nil || h.Parent() != nil || token.IsExported(h.Name()) || w.dynCallable(h) || recvNamed(h) != m.Server {
+		return nil, nil
+	}
+	for i, a := range target.Call.Args {
+		if i == 0 {
+			if a != ssa.Value(fn.Params[0]) {
+				return nil, nil
+			}
+			continue
+		}
+		_, isParam := a.(*ssa.Parameter)
+		_, isConst := a.(*ssa.Const)
+		if !isParam && !isConst {
+			return nil, nil
+		}
+	}
+	for _, call := range callsIn(fn) {
+		if call == ssa.CallInstruction(target) {
+			continue
+		}
+		if n := calleeName(call); !strings.HasPrefix(n, "(*sync.") {
+			return nil, nil
+		}
+	}
+	return h, target
+}
+
 func runC08(c *Ctx) {
 	w := c.w
 	m := resolveShim(w)
@@ -366,101 +431,154 @@ func runC08(c *Ctx) {
 		return
 	}
 	nEffects := 0
+	// frames: the function whose body does the work of each gated method, and the facts to read it under
+	type frame struct {
+		entry, body *ssa.Function
+		site        *ssa.Call
+	}
+	frames := map[string]frame{}
+	flagWriters := map[*ssa.Function]bool{}
 	for _, name := range c08Gated {
 		fn := m.Methods[name]
 		if fn == nil {
+			continue
+		}
+		fr := frame{entry: fn, body: fn}
+		testsFlag := false
+		for _, b := range fn.Blocks {
+			if _, known := m.lockedKnown(fn, b); known {
+				testsFlag = true
+			}
+		}
+		if h, site := m.delegate(fn); h != nil && !testsFlag {
+			fr.body, fr.site = h, site
+		}
+		frames[name] = fr
+		if name == "Lock" || name == "Unlock" {
+			flagWriters[fr.body] = true
+		}
+	}
+	// within: run f with the facts of the method's frame (one activation of a shared body)
+	within := func(fr frame, f func(fn *ssa.Function, view *Facts)) {
+		if fr.site == nil {
+			f(fr.body, w.Facts(fr.entry))
+			return
+		}
+		old := w.focus
+		defer w.restoreFocus(old)
+		w.Focus(fr.entry)
+		w.Pin(fr.entry, fr.body, fr.site, func(view *Facts) { f(fr.body, view) })
+	}
+	lockedIn := func(view *Facts, b *ssa.BasicBlock) (bool, bool) {
+		for l := range view.At(b) {
+			if m.isLoadOfField(l.V, m.fLocked) {
+				return l.Pol, true
+			}
+		}
+		return false, false
+	}
+	for _, name := range c08Gated {
+		fr, ok := frames[name]
+		if !ok {
 			c.Unresolved("R1.gate", "method "+name+" of the shim server")
 			continue
 		}
-		c.Saw(fn)
+		c.Saw(fr.entry)
+		c.Saw(fr.body)
 		want := name == "Unlock" // required value of the flag at effects
-		// Sign-like delegation: a method whose only effect is a call of another gated method needs no test of its own
-		for _, b := range fn.Blocks {
-			if fn.Recover == b {
-				continue
-			}
-			for _, ins := range b.Instrs {
-				what, ok := m.effect(fn, ins)
-				if !ok {
+		within(fr, func(fn *ssa.Function, view *Facts) {
+			live := func(b *ssa.BasicBlock) bool { return fr.site == nil || view.At(b) != nil }
+			// Sign-like delegation: a method whose only effect is a call of another gated method needs no test of its own
+			for _, b := range fn.Blocks {
+				if fn.Recover == b || !live(b) {
 					continue
 				}
-				if call, isCall := ins.(ssa.CallInstruction); isCall {
-					if callee := call.Common().StaticCallee(); callee != nil && recvNamed(callee) == m.Server && isGated(callee.Name()) && callee.Name() != name {
-						// delegation to a method that performs the test itself (same receiver)
-						if w.Expr(call.Common().Args[0]) == "p0" {
-							c.Ok("R1.gate", name+"|delegates to gated "+callee.Name(), w.Pos(ins.Pos()), "effect is a call of another gated method on the same receiver")
-							nEffects++
-							continue
+				for _, ins := range b.Instrs {
+					what, ok := m.effect(fn, ins)
+					if !ok {
+						continue
+					}
+					if call, isCall := ins.(ssa.CallInstruction); isCall {
+						if callee := call.Common().StaticCallee(); callee != nil && recvNamed(callee) == m.Server && isGated(callee.Name()) && callee.Name() != name {
+							// delegation to a method that performs the test itself (same receiver)
+							if w.Expr(call.Common().Args[0]) == "p0" {
+								c.Ok("R1.gate", name+"|delegates to gated "+callee.Name(), w.Pos(ins.Pos()), "effect is a call of another gated method on the same receiver")
+								nEffects++
+								continue
+							}
+						}
+					}
+					if _, isDefer := ins.(*ssa.Defer); isDefer {
+						continue
+					}
+					nEffects++
+					val, known := lockedIn(view, b)
+					key := name + "|" + what
+					switch {
+					case !known:
+						c.Bad("R1.gate", key, w.Pos(ins.Pos()), "effect reachable on a path where the lock flag was not tested (block trail: "+blockTrail(b)+")")
+					case val != want:
+						c.Bad("R1.gate", key, w.Pos(ins.Pos()), "effect reachable with the lock flag known to be "+boolStr(val))
+					default:
+						c.Ok("R1.gate", key, w.Pos(ins.Pos()), "must-fact lock flag == "+boolStr(val)+" at "+blockTrail(b))
+					}
+				}
+			}
+			// returns under the 'wrong' flag value
+			nLockedRet := 0
+			for _, r := range liveReturns(fn) {
+				if !live(r.Block()) {
+					continue
+				}
+				val, known := lockedIn(view, r.Block())
+				if !known || val == want {
+					continue
+				}
+				nLockedRet++
+				key := name + "|return under flag=" + boolStr(val)
+				if name == "List" {
+					okList := len(r.Results) == 2
+					if okList {
+						for _, lf := range w.Leaves(r.Results[1], r) {
+							if !isNilConst(lf.Val) {
+								okList = false
+							}
+						}
+						for _, lf := range w.Leaves(r.Results[0], r) {
+							if !isEmptySlice(lf.Val) {
+								okList = false
+							}
+						}
+					}
+					c.Check(okList, "R1.locked", key, w.Pos(r.Pos()), "locked List returns an empty list and nil", "locked List must return a zero-length list and a nil error")
+					continue
+				}
+				idx := errorResultIndex(fn)
+				okRet := idx >= 0
+				if okRet {
+					for _, lf := range w.Leaves(r.Results[idx], r) {
+						if !w.NonNil(lf.Val, lf.Facts) {
+							okRet = false
 						}
 					}
 				}
-				if _, isDefer := ins.(*ssa.Defer); isDefer {
-					continue
-				}
-				nEffects++
-				val, known := m.lockedKnown(fn, b)
-				key := name + "|" + what
-				switch {
-				case !known:
-					c.Bad("R1.gate", key, w.Pos(ins.Pos()), "effect reachable on a path where the lock flag was not tested (block trail: "+blockTrail(b)+")")
-				case val != want:
-					c.Bad("R1.gate", key, w.Pos(ins.Pos()), "effect reachable with the lock flag known to be "+boolStr(val))
-				default:
-					c.Ok("R1.gate", key, w.Pos(ins.Pos()), "must-fact lock flag == "+boolStr(val)+" at "+blockTrail(b))
-				}
+				c.Check(okRet, "R1.locked", key, w.Pos(r.Pos()), "returns a certainly non-nil error", "a return reachable while locked (not locked for Unlock) may yield a nil error: "+w.Expr(r.Results[max(idx, 0)]))
 			}
-		}
-		// returns under the 'wrong' flag value
-		nLockedRet := 0
-		for _, r := range liveReturns(fn) {
-			val, known := m.lockedKnown(fn, r.Block())
-			if !known || val == want {
-				continue
-			}
-			nLockedRet++
-			key := name + "|return under flag=" + boolStr(val)
-			if name == "List" {
-				okList := len(r.Results) == 2
-				if okList {
-					for _, lf := range w.Leaves(r.Results[1], r) {
-						if !isNilConst(lf.Val) {
-							okList = false
-						}
+			if name != "Sign" {
+				c.Floor("R1.locked", nLockedRet, 1, "refusing return in "+name)
+				// success only with the flag known to have the required value (List's empty answer excepted)
+				for _, r := range w.MayBeNilReturns(fn) {
+					if (fn.Recover != nil && r.Block() == fn.Recover) || !live(r.Block()) {
+						continue
 					}
-					for _, lf := range w.Leaves(r.Results[0], r) {
-						if !isEmptySlice(lf.Val) {
-							okList = false
-						}
+					val, known := lockedIn(view, r.Block())
+					if name == "List" && known && val {
+						continue
 					}
-				}
-				c.Check(okList, "R1.locked", key, w.Pos(r.Pos()), "locked List returns an empty list and nil", "locked List must return a zero-length list and a nil error")
-				continue
-			}
-			idx := errorResultIndex(fn)
-			okRet := idx >= 0
-			if okRet {
-				for _, lf := range w.Leaves(r.Results[idx], r) {
-					if !w.NonNil(lf.Val, lf.Facts) {
-						okRet = false
-					}
+					c.Check(known && val == want, "R1.locked", name+"|success only after the flag was tested", w.Pos(r.Pos()), "must-fact lock flag == "+boolStr(want), name+" can return success on a path where the lock flag was not tested (or has the wrong value): a locked agent answers")
 				}
 			}
-			c.Check(okRet, "R1.locked", key, w.Pos(r.Pos()), "returns a certainly non-nil error", "a return reachable while locked (not locked for Unlock) may yield a nil error: "+w.Expr(r.Results[max(idx, 0)]))
-		}
-		if name != "Sign" {
-			c.Floor("R1.locked", nLockedRet, 1, "refusing return in "+name)
-			// success only with the flag known to have the required value (List's empty answer excepted)
-			for _, r := range w.MayBeNilReturns(fn) {
-				if fn.Recover != nil && r.Block() == fn.Recover {
-					continue
-				}
-				val, known := m.lockedKnown(fn, r.Block())
-				if name == "List" && known && val {
-					continue
-				}
-				c.Check(known && val == want, "R1.locked", name+"|success only after the flag was tested", w.Pos(r.Pos()), "must-fact lock flag == "+boolStr(want), name+" can return success on a path where the lock flag was not tested (or has the wrong value): a locked agent answers")
-			}
-		}
+		})
 	}
 	c.Floor("R1.gate", nEffects, 10, "effect sites in gated methods")
 
@@ -469,65 +587,108 @@ func runC08(c *Ctx) {
 		name string
 		val  bool
 	}{{"Lock", true}, {"Unlock", false}} {
-		fn := m.Methods[spec.name]
-		if fn == nil {
+		fr, ok := frames[spec.name]
+		if !ok {
 			continue
 		}
-		var agentCall *ssa.Call
-		for _, call := range callsIn(fn) {
-			if cc, ok := call.(*ssa.Call); ok && cc.Call.IsInvoke() && cc.Call.Method.Name() == spec.name && m.isLoadOfField(cc.Call.Value, m.fAgent) {
-				agentCall = cc
+		within(fr, func(fn *ssa.Function, view *Facts) {
+			live := func(b *ssa.BasicBlock) bool { return fr.site == nil || view.At(b) != nil }
+			var agentCall *ssa.Call
+			for _, call := range callsIn(fn) {
+				if cc, ok := call.(*ssa.Call); ok && cc.Call.IsInvoke() && cc.Call.Method.Name() == spec.name && m.isLoadOfField(cc.Call.Value, m.fAgent) && live(cc.Block()) {
+					agentCall = cc
+				}
 			}
-		}
-		if agentCall == nil {
-			c.Bad("R2.flip", spec.name+"|underlying call", w.FnPos(fn), "no call of the underlying agent's "+spec.name)
-			continue
-		}
-		c.Check(len(agentCall.Call.Args) == 1 && w.Expr(agentCall.Call.Args[0]) == "p1", "R2.flip", spec.name+"|passphrase pass-through", w.Pos(agentCall.Pos()),
-			"passphrase parameter forwarded unchanged", "the passphrase handed to the underlying agent is not the method's parameter: "+w.Expr(agentCall.Call.Args[0]))
-		nStores := 0
-		for _, a := range w.FieldAccesses(m.Server, m.fLocked) {
-			if a.Fn != fn || a.Kind != "write" {
-				continue
+			if agentCall == nil {
+				c.Bad("R2.flip", spec.name+"|underlying call", w.FnPos(fr.entry), "no call of the underlying agent's "+spec.name)
+				return
 			}
-			nStores++
-			st := a.Instr.(*ssa.Store)
-			bv, isConst := boolConst(st.Val)
-			okVal := isConst && bv == spec.val
-			c.Check(okVal, "R2.flip", spec.name+"|stored constant", w.Pos(st.Pos()), "stores "+boolStr(spec.val), "stores "+w.Expr(st.Val)+" into the lock flag")
-			// fact agentCall == nil
-			isNil, known := w.Facts(fn).KnownNil(st.Block(), agentCall)
-			c.Check(known && isNil, "R2.flip", spec.name+"|store gated on underlying success", w.Pos(st.Pos()),
-				"must-fact: underlying "+spec.name+" returned nil", "the lock flag is changed on a path where the underlying agent's "+spec.name+" result is not known to be nil")
-		}
-		c.Floor("R2.flip", nStores, 1, "flag store in "+spec.name)
-		// returns after the call yield the call's result
-		for _, r := range liveReturns(fn) {
-			if !InstrDominates(agentCall, r) {
-				continue
-			}
-			okR := true
-			for _, lf := range w.Leaves(r.Results[0], r) {
-				if lf.Val == ssa.Value(agentCall) {
+			c.Check(len(agentCall.Call.Args) == 1 && w.ExprIn(fr.entry, agentCall.Call.Args[0]) == "p1", "R2.flip", spec.name+"|passphrase pass-through", w.Pos(agentCall.Pos()),
+				"passphrase parameter forwarded unchanged", "the passphrase handed to the underlying agent is not the method's parameter: "+w.Expr(agentCall.Call.Args[0]))
+			nStores := 0
+			for _, a := range w.FieldAccesses(m.Server, m.fLocked) {
+				if a.Fn != fn || a.Kind != "write" || !live(a.Instr.Block()) {
 					continue
 				}
-				// equivalent forms: nil under the must-fact result==nil, a non-nil error under result!=nil
-				resNil, known := false, false
-				for l := range lf.Facts {
-					if y, isNil, ok := nilTest(l); ok && strip(y) == ssa.Value(agentCall) {
-						resNil, known = isNil, true
+				nStores++
+				st := a.Instr.(*ssa.Store)
+				bv, isConst := boolConst(st.Val)
+				if p, isParam := st.Val.(*ssa.Parameter); isParam && fr.site != nil {
+					// the shared body stores its parameter: the constant this call passes
+					if i := paramIndex(p); i >= 0 && i < len(fr.site.Call.Args) {
+						bv, isConst = boolConst(fr.site.Call.Args[i])
 					}
 				}
-				if known && resNil && isNilConst(lf.Val) {
-					continue
+				okVal := isConst && bv == spec.val
+				c.Check(okVal, "R2.flip", spec.name+"|stored constant", w.Pos(st.Pos()), "stores "+boolStr(spec.val), "stores "+w.Expr(st.Val)+" into the lock flag")
+				// fact agentCall == nil
+				isNil, known := view.KnownNil(st.Block(), agentCall)
+				if !known {
+					// the result joined with the other branch's (a shared body): every value that can reach the test is this
+					// activation's call
+					for l := range view.At(st.Block()) {
+						if y, n, ok := nilTest(l); ok {
+							all := true
+							for _, lf := range w.leaves(y, st, false) {
+								if cv, isCall := lf.Val.(*ssa.Call); isCall && cv != agentCall && !live(cv.Block()) {
+									continue // the other activation's call
+								}
+								if lf.Val != ssa.Value(agentCall) {
+									all = false
+								}
+							}
+							if all {
+								isNil, known = n, true
+							}
+						}
+					}
 				}
-				if known && !resNil && w.NonNil(lf.Val, lf.Facts) {
-					continue
-				}
-				okR = false
+				c.Check(known && isNil, "R2.flip", spec.name+"|store gated on underlying success", w.Pos(st.Pos()),
+					"must-fact: underlying "+spec.name+" returned nil", "the lock flag is changed on a path where the underlying agent's "+spec.name+" result is not known to be nil")
 			}
-			c.Check(okR, "R2.flip", spec.name+"|returns underlying result", w.Pos(r.Pos()), "returns the underlying agent's result", "after calling the underlying agent the method does not return its result: "+w.Expr(r.Results[0]))
-		}
+			c.Floor("R2.flip", nStores, 1, "flag store in "+spec.name)
+			// returns after the call yield the call's result
+			for _, r := range liveReturns(fn) {
+				if !live(r.Block()) || !ReachableAvoiding(agentCall, nil)(r) {
+					continue
+				}
+				if fr.site == nil && !InstrDominates(agentCall, r) {
+					continue
+				}
+				okR := true
+				for _, lf := range w.Leaves(r.Results[0], r) {
+					if lf.Val == ssa.Value(agentCall) {
+						continue
+					}
+					if cv, isCall := lf.Val.(*ssa.Call); isCall && fr.site != nil && !live(cv.Block()) {
+						continue // the other activation's call
+					}
+					// equivalent forms: nil under the must-fact result==nil, a non-nil error under result!=nil
+					resNil, known := false, false
+					for l := range lf.Facts {
+						if y, isNil, ok := nilTest(l); ok {
+							if strip(y) == ssa.Value(agentCall) {
+								resNil, known = isNil, true
+							} else if fr.site != nil {
+								for _, l2 := range w.leaves(y, r, false) {
+									if l2.Val == ssa.Value(agentCall) {
+										resNil, known = isNil, true
+									}
+								}
+							}
+						}
+					}
+					if known && resNil && isNilConst(lf.Val) {
+						continue
+					}
+					if known && !resNil && w.NonNil(lf.Val, lf.Facts) {
+						continue
+					}
+					okR = false
+				}
+				c.Check(okR, "R2.flip", spec.name+"|returns underlying result", w.Pos(r.Pos()), "returns the underlying agent's result", "after calling the underlying agent the method does not return its result: "+w.Expr(r.Results[0]))
+			}
+		})
 	}
 
 	// R3: writers census
@@ -535,26 +696,31 @@ func runC08(c *Ctx) {
 	for _, a := range w.FieldAccesses(m.Server, m.fLocked) {
 		if a.Kind == "write" || a.Kind == "addr" || a.Kind == "addrcall" {
 			writers[a.Fn.Name()] = true
-			okW := (a.Fn == m.Methods["Lock"] || a.Fn == m.Methods["Unlock"]) && a.Kind == "write"
+			okW := flagWriters[a.Fn] && a.Kind == "write"
 			c.Check(okW, "R3.writers", "flag writer "+fnName(a.Fn), w.Pos(a.Instr.Pos()), "writer is Lock/Unlock", "the lock flag is written (or its address taken) outside Lock/Unlock")
 		}
 	}
-	c.Floor("R3.writers", len(writers), 2, "writers of the lock flag")
+	nWriterOps := len(writers)
+	if fl, fu := frames["Lock"], frames["Unlock"]; fl.body != nil && fl.body == fu.body && fl.site != nil {
+		nWriterOps = 2 // one shared body serving both operations
+	}
+	c.Floor("R3.writers", nWriterOps, 2, "writers of the lock flag")
 	for _, name := range []string{"Lock", "Unlock"} {
-		fn := m.Methods[name]
-		if fn == nil {
+		fr, ok := frames[name]
+		if !ok {
 			continue
 		}
+		fn := fr.body
 		for _, f := range []string{m.fCerts, m.fCache} {
 			clean := true
 			for _, a := range w.FieldAccesses(m.Server, f) {
-				if a.Fn == fn && (a.Kind == "write" || a.Kind == "mapwrite" || a.Kind == "mapdelete") {
+				if (a.Fn == fn || a.Fn == fr.entry) && (a.Kind == "write" || a.Kind == "mapwrite" || a.Kind == "mapdelete") {
 					clean = false
 					c.Bad("R3.writers", name+"|writes "+f, w.Pos(a.Instr.Pos()), name+" modifies the certificate tables: the pre-lock view would not be what unlock reveals")
 				}
 			}
 			if clean {
-				c.Ok("R3.writers", name+"|leaves "+f, w.FnPos(fn), "no write to "+f)
+				c.Ok("R3.writers", name+"|leaves "+f, w.FnPos(fr.entry), "no write to "+f)
 			}
 		}
 	}
@@ -577,6 +743,7 @@ func boolStr(b bool) string {
 }
 
 // isEmptySlice: nil slice constant, make(T,0), or a slice of a zero-length array literal.
+
 func isEmptySlice(v ssa.Value) bool {
 	switch x := v.(type) {
 	case *ssa.Const:
